@@ -1,0 +1,35 @@
+//go:build verif
+
+package catalog
+
+import "sync/atomic"
+
+// VerifTagName exposes the automatic tag name computed from a tag title.
+func VerifTagName(title string) string {
+	return string(tagName(title))
+}
+
+// VerifPathTagTitle exposes the automatic tag title computed from a path.
+func VerifPathTagTitle(path string) string {
+	return pathTagTitle(path)
+}
+
+// VerifRecovered is called by recover() sites with the recovered value.
+// The monitor installs a callback; nil means "not observed".
+var verifRecoveredHook atomic.Value // of func(site string, r interface{})
+
+// VerifSetRecoveredHook installs the observer of recovered panics.
+func VerifSetRecoveredHook(f func(site string, r interface{})) {
+	verifRecoveredHook.Store(f)
+}
+
+func verifRecovered(site string, r interface{}) {
+	if f, ok := verifRecoveredHook.Load().(func(string, interface{})); ok && f != nil {
+		f(site, r)
+	}
+}
+
+// VerifRecovered lets other packages of this module report a recovered panic.
+func VerifRecovered(site string, r interface{}) {
+	verifRecovered(site, r)
+}
